@@ -45,6 +45,7 @@ run mutants/R01_revert_lexer_header_fix.patch C12
 run mutants/R02_revert_trim_byte_string_fix.patch C12
 run mutants/R03_revert_set_character_data_fix.patch C04 C05
 run mutants/R04_revert_insert_range_fix.patch C12
+run mutants/R05_revert_set_reference_target_fix.patch C11
 # the reverse direction: behaviour-preserving edits (comment lines shifting every line number, a renamed private function,
 # reordered independent statements) must leave every check silent (exit 0)
 tools/run_mutant.sh mutants/Z01_neutral_edits.patch C03 C04 C05 C06 C10 C11 C12 C13 C15 C16 2>&1 | grep -E "exit=|DOES NOT" | sed 's/$/   (expected: exit=0)/'
